@@ -300,12 +300,29 @@ def r4(F, R):
                 break
             cur = ss[0]
         key = b.path + ":loop-cond"
+        exit_edges = [exit_edge] if exit_edge is not None else []
         if cond_ok and exit_edge is not None:
             R.ok("C03-R4", key, "%s @%s" % (b.path, loc(ht.get("span") or b.span)), "while tree.depth < maxdepth")
         else:
-            R.bad("C03-R4", key, b.path, "doubling loop condition is not a comparison of tree.depth with maxdepth")
-            continue
-        after = b.reach_from(exit_edge)
+            # other shapes of the same loop (`loop { match bounds.next(depth) { Stop => break, .. } .. }`): every path of one iteration that
+            # reaches extend() has passed `tree.depth < maxdepth`, and the loop is left where that comparison failed
+            _depth_vs = lambda sw, val: K.depth_relation(b, sw, val)
+            first_ext = [bb for bb, _t in ext if bb in body]
+            hits, exits = K.iter_paths(b, h, first_ext, within=body)
+            if hits is None or not hits:
+                R.bad("C03-R4", key, b.path, "doubling loop condition is not a comparison of tree.depth with maxdepth")
+                continue
+            unguarded = [cs for (_tb, cs, _p) in hits if not any(_depth_vs(sw, val) == ("Lt", "maxdepth") for (sw, val) in cs)]
+            exit_edges = sorted({y for (_x, y, cs) in exits if any(_depth_vs(sw, val) == ("Ge", "maxdepth") for (sw, val) in cs)})
+            if unguarded:
+                R.bad("C03-R4", key, b.path, "a path of the doubling loop reaches extend() without having passed `tree.depth < maxdepth` (%d of %d paths): "
+                      "the tree can grow beyond maxdepth" % (len(unguarded), len(hits)))
+                continue
+            if not exit_edges:
+                R.bad("C03-R4", key, b.path, "the doubling loop has no exit taken when tree.depth >= maxdepth")
+                continue
+            R.ok("C03-R4", key, "%s @%s" % (b.path, loc(ht.get("span") or b.span)), "every path of an iteration to extend() passes tree.depth < maxdepth (%d paths)" % len(hits))
+        after = b.reach_from(exit_edges)
         info_sites = [(bb, t, b.value(t["args"][1])) for (bb, t) in infos]
         # the same struct written in place (info() inlined by hand): SampleInfo { depth: tree.depth, reached_maxdepth: <flag>, .. }
         for bi_, blk_ in enumerate(b.blocks):
@@ -599,6 +616,56 @@ def energy_baseline(F, R, rid="C03-R9"):
 
 
 
+def r11(F, R):
+    R.rule("C03-R11", "the reported step count is that of the draw's trajectory: the statistics field Strategy.last_n_steps is written (apart from the "
+                      "constructor's 0) only from a value read off an AcceptanceRateCollector parameter, and every caller of such a writer hands it a "
+                      "collector it received itself (the collector that observed the whole trajectory) - never a collector created locally, such as the "
+                      "single-step probe of the initial step-size search")
+    ADT = "stepsize::adapt::Strategy"
+    writers = [w for w in K.field_writers(F, ADT, "last_n_steps")]
+    if not writers:
+        R.missing("C03-R11", "writers of stepsize Strategy.last_n_steps")
+    wfns = {}
+    for (b, bb, st, v, how) in writers:
+        site = "%s @%s" % (b.path, loc(st["span"]))
+        key = "%s:last_n_steps<-%s" % (b.path, how)
+        if v[0] == "const":
+            R.ok("C03-R11", key, site, "constant %s (constructor)" % v[2])
+            continue
+        args = [n for n in vt_walk(v) if n[0] == "arg" and "AcceptanceRateCollector" in b.local_ty(n[1])]
+        if args:
+            R.ok("C03-R11", key, site, "read from the collector parameter `%s`" % args[0][2])
+            wfns[strip_generics(b.path)] = (b, args[0][1])
+        else:
+            R.bad("C03-R11", key, site, "last_n_steps = %s does not come from a collector parameter of this function" % vt_str(v)[:120])
+    for wp, (wb, argi) in sorted(wfns.items()):
+        ncall = 0
+        for x in sorted(F.bodies.values(), key=lambda y: y.path):
+            for bb, t in x.calls():
+                c = t["callee"]
+                if strip_generics(c.get("resolved") or c.get("path", "")) != wp:
+                    continue
+                ncall += 1
+                site = "%s @%s" % (x.path, loc(t["span"]))
+                key = "%s:feeds-stats#%d" % (x.path, ncall)
+                if argi - 1 >= len(t["args"]):
+                    R.bad("C03-R11", key, site, "call without the collector argument")
+                    continue
+                root = K.root_local(x, t["args"][argi - 1])
+                rv = x.value(t["args"][argi - 1])
+                from_param = any(n[0] in ("arg", "upvar") for n in vt_walk(rv)) and not any(
+                    n[0] == "call" and str(n[1]).endswith("AcceptanceRateCollector::new") for n in vt_walk(rv))
+                made_here = any(strip_generics(tt["callee"].get("path", "")).endswith("AcceptanceRateCollector::new") and tt["dest"]["l"] == root for _b2, tt in x.calls())
+                if from_param and not made_here:
+                    R.ok("C03-R11", key, site, "the statistics are fed from a collector the caller received (%s)" % vt_str(rv)[:80])
+                else:
+                    R.bad("C03-R11", key, site, "the per-draw statistics (n_steps, acceptance, energy error) are overwritten from a collector created in this function "
+                          "(%s): a probe step replaces the numbers of the trajectory that was just sampled" % vt_str(rv)[:80])
+        if ncall == 0:
+            R.missing("C03-R11", "callers of %s" % wp)
+    R.floor("C03-R11", 4)
+
+
 def run(F, R, config="all"):
     r1(F, R)
     r2(F, R)
@@ -609,6 +676,7 @@ def run(F, R, config="all"):
     snapshot(F, R)
     uturn_kernels(F, R)
     energy_baseline(F, R)
+    r11(F, R)
     # the reported step count is the collector's count: every leapfrog outcome that is part of the draw must be registered (C07-R8 analysis)
     from . import c07
     K.borrow_rule(R, lambda sub: c07.r8(F, sub, rid="C07-R8"), "C03-R10", "every leapfrog step that ends in Ok or Divergence is registered with the collector exactly once, "
